@@ -1,4 +1,5 @@
-/-! Driver executable for family `crash` — placeholder until the family is built. -/
+import Whv.Driver.Crash
+/-! Driver executable for family `crash` (C16): case lines on stdin, verdict lines on stdout. -/
 def main : IO UInt32 := do
-  IO.eprintln "family not built"
-  return 2
+  Whv.Driver.CrashFam.run (← IO.getStdin)
+  return 0
